@@ -98,36 +98,59 @@ Proof.
   intros H. unfold s_set, s_sel, side_of in *. destruct (s_cur sp), b; cbn [s_a s_b]; auto; apply kept_refl.
 Qed.
 
+(* The proof below does not name the operations of AvlSpec.op nor the shape of the branches of spec_step (that file
+   belongs to property C01 and changes under other hands): every branch ends in the state itself, in a state with the
+   selected container replaced by a sub-list / by the list with one fresh entry / by a renumbered copy, or in the result
+   of s_insert / s_bulk. *)
+Lemma ins_leaf f k v sp b (r : itr -> res) :
+  let x := (let '(l', n', it) := s_insert f k v (s_sel sp) (s_next sp) in (s_set sp l' n', r it)) in
+  kept (fun y => k =? y) (s_next sp) (side_of b sp) (side_of b (fst x)) /\ (s_next sp <= s_next (fst x))%nat.
+Proof.
+  pose proof (ins_list_kept f k v (s_next sp) (s_sel sp)) as H1. pose proof (s_insert_next f k v (s_sel sp) (s_next sp)) as H2.
+  unfold s_insert in *. cbn [fst snd] in *. split; [apply kept_s_set; exact H1|].
+  unfold s_set. destruct (s_cur sp); cbn [s_next]; exact H2.
+Qed.
+
+Lemma bulk_leaf f sp b (r : res) :
+  let x := (let '(l', n') := s_bulk f (s_other sp) (s_sel sp) (s_next sp) in (s_set sp l' n', r)) in
+  kept (fun _ => true) (s_next sp) (side_of b sp) (side_of b (fst x)) /\ (s_next sp <= s_next (fst x))%nat.
+Proof.
+  destruct (s_bulk_kept f (s_other sp) (s_sel sp) (s_next sp)) as (H1 & H2).
+  destruct (s_bulk f (s_other sp) (s_sel sp) (s_next sp)) as [l' n']. cbn [fst snd] in *. split; [apply kept_s_set; exact H1|].
+  unfold s_set. destruct (s_cur sp); cbn [s_next]; exact H2.
+Qed.
+
+Ltac kept_in He :=
+  first [ exact (in_remove_nth _ _ _ He)
+        | (rewrite <- remove_nth_last in He; exact (in_remove_nth _ _ _ He))
+        | destruct He
+        | (cbn; auto; fail) ].
+Ltac kept_leaf :=
+  cbn [fst];
+  first [ split; [apply kept_refl|cbn [s_next]; lia]
+        | split; [apply kept_s_set; repeat match goal with H : s_sel _ = _ |- _ => rewrite H end;
+                  first [apply insert_at_kept | apply renumber_kept | apply kept_sub; let He := fresh "He" in (intros ? He; kept_in He)]
+                 |unfold s_set; match goal with |- context [s_cur ?sp] => destruct (s_cur sp) end; cbn [s_next]; lia] ].
+Ltac kept_crack :=
+  first [ kept_leaf
+        | match goal with
+          | |- context [match ?x with _ => _ end] => destruct x eqn:?; kept_crack
+          end ].
+
 Lemma spec_step_kept f sp o ch b :
   kept (fun k => touches k o) (s_next sp) (side_of b sp) (side_of b (fst (spec_step f sp o ch))) /\
   (s_next sp <= s_next (fst (spec_step f sp o ch)))%nat.
 Proof.
-  assert (Hset : forall l' n', (s_next sp <= n')%nat -> (s_next sp <= s_next (s_set sp l' n'))%nat).
-  { intros l' n' H. unfold s_set. destruct (s_cur sp); cbn [s_next]; exact H. }
-  destruct o as [k v|pos k v|k|pos| | | |k|k|k| | |c| | | ]; unfold spec_step; cbv beta iota zeta; cbn [fst];
-    try (split; [apply kept_refl|lia]).
-  - pose proof (ins_list_kept f k v (s_next sp) (s_sel sp)) as H1. pose proof (s_insert_next f k v (s_sel sp) (s_next sp)) as H2.
-    unfold s_insert in *. cbn [fst snd] in *. split; [apply kept_s_set; exact H1|apply Hset; exact H2].
-  - destruct f.
-    + pose proof (ins_list_kept FMap k v (s_next sp) (s_sel sp)) as H1. pose proof (s_insert_next FMap k v (s_sel sp) (s_next sp)) as H2.
-      unfold s_insert in *. cbn [fst snd] in *. split; [apply kept_s_set; exact H1|apply Hset; exact H2].
-    + destruct (valid_pos k ch (s_sel sp)); cbn [fst]; [|split; [apply kept_refl|lia]].
-      split; [apply kept_s_set; apply insert_at_kept|apply Hset; lia].
-  - destruct (find_list k (s_sel sp)); cbn [fst]; [|split; [apply kept_refl|lia]].
-    split; [apply kept_s_set; apply kept_sub; intros e; apply in_remove_nth|apply Hset; lia].
-  - destruct (pos <? length (s_sel sp))%nat; cbn [fst]; [|split; [apply kept_refl|lia]].
-    split; [apply kept_s_set; apply kept_sub; intros e; apply in_remove_nth|apply Hset; lia].
-  - destruct (s_sel sp) as [|x t] eqn:E; cbn [fst]; [split; [apply kept_refl|lia]|].
-    split; [apply kept_s_set; rewrite E; apply kept_sub; intros e He; cbn; auto|apply Hset; lia].
-  - destruct (s_sel sp) as [|x t] eqn:E; cbn [fst]; [split; [apply kept_refl|lia]|].
-    split; [apply kept_s_set; rewrite E; apply kept_sub; intros e He; rewrite <- remove_nth_last in He; apply in_remove_nth in He; exact He|apply Hset; lia].
-  - split; [apply kept_s_set; apply kept_sub; intros e []|apply Hset; lia].
-  - split; [|unfold s_set; destruct (s_cur sp); cbn [s_next]; lia]. unfold side_of. destruct b; cbn [s_a s_b]; apply kept_refl.
-  - split; [apply kept_s_set; apply renumber_kept|apply Hset; lia].
-  - destruct f; cbn [fst]; [|split; [apply kept_refl|lia]].
-    destruct (s_bulk_kept FMap (s_other sp) (s_sel sp) (s_next sp)) as (H1 & H2).
-    destruct (s_bulk FMap (s_other sp) (s_sel sp) (s_next sp)) as [l' n']. cbn [fst snd] in *.
-    split; [apply kept_s_set; eapply kept_ext; [|exact H1]; auto|apply Hset; exact H2].
+  assert (Hins : forall f0 k v (r : itr -> res), touches k o = true ->
+            let x := (let '(l', n', it) := s_insert f0 k v (s_sel sp) (s_next sp) in (s_set sp l' n', r it)) in
+            kept (fun y => touches y o) (s_next sp) (side_of b sp) (side_of b (fst x)) /\ (s_next sp <= s_next (fst x))%nat).
+  { intros f0 k v r Ht. destruct (ins_leaf f0 k v sp b r) as (H1 & H2). split; [|exact H2].
+    eapply kept_ext; [|exact H1]. intros y Hy. apply Z.eqb_eq in Hy. subst y. exact Ht. }
+  destruct o; unfold spec_step; cbv beta iota zeta;
+    try (apply Hins; cbn [touches]; apply Z.eqb_refl);
+    try (destruct f; [apply Hins; cbn [touches]; apply Z.eqb_refl|]);
+    try (destruct f; [destruct (bulk_leaf FMap sp b RNone) as (H1 & H2); split; [eapply kept_ext; [|exact H1]; auto|exact H2]|]);
+    kept_crack.
 Qed.
 
 (* ---- histories of the node-level AVL model --------------------------------------------------------------------------- *)
